@@ -168,6 +168,7 @@ def minify(
     if module.tainted:
         rename_globals = False
         rename_locals = False
+        hoist_literals = False
 
     if preserve_locals is None:
         preserve_locals = []
